@@ -115,6 +115,17 @@ func oneRun(seed uint64, idx int, log bool) (sig string, msg string, nops int, s
 		key  int
 		val  int
 		cont bool
+		// a bounded Range / RangeReverse that yields only keys nobody writes: it starts at key, runs
+		// over at most n entries in the map's order, lb / ub choose the bound kinds; want is filled in
+		// once the written keys are known
+		edge   int // 1 First, 2 Last, 3 Len: reads that involve no written key (checked below)
+		rng    bool
+		rev    bool
+		n      int
+		lb, ub int
+		lower  tree.Bound[int]
+		upper  tree.Bound[int]
+		want   []int
 	}
 	plans := make([][]op, g)
 	written := map[int]int{}
@@ -133,19 +144,73 @@ func oneRun(seed uint64, idx int, log bool) (sig string, msg string, nops int, s
 				v := 100000 + i*1000 + j
 				written[k] = v
 				plans[i] = append(plans[i], op{put: true, key: k, val: v})
+			} else if e := t.Choose(12, "edge?"); e >= 9 {
+				plans[i] = append(plans[i], op{edge: e - 8})
+			} else if t.Choose(4, "range?") == 3 {
+				plans[i] = append(plans[i], op{key: k, rng: true, rev: t.Choose(2, "rev") == 1, n: 1 + t.Choose(6, "range-len"),
+					lb: t.Choose(2, "lower-kind"), ub: t.Choose(2, "upper-kind")})
 			} else {
 				plans[i] = append(plans[i], op{key: k, cont: t.Choose(2, "contains") == 1})
 			}
 			ops++
 		}
 	}
-	// readers must read OTHER keys: drop reads of keys that some goroutine writes
+	// readers must read OTHER keys: drop reads of keys that some goroutine writes; a range is cut
+	// to the run of unwritten keys starting at its first key, so that it yields only other keys - the
+	// entry just beyond either bound may well be one that is being written
+	inOrder := append([]int(nil), present...) // in the map's order
+	if reversed {
+		for a, b := 0, len(inOrder)-1; a < b; a, b = a+1, b-1 {
+			inOrder[a], inOrder[b] = inOrder[b], inOrder[a]
+		}
+	}
+	pos := map[int]int{}
+	for i, k := range inOrder {
+		pos[k] = i
+	}
 	for i := range plans {
 		var keep []op
 		for _, o := range plans[i] {
-			if !o.put {
+			if !o.put && o.edge == 0 {
 				if _, w := written[o.key]; w {
 					continue
+				}
+			}
+			if o.edge == 1 || o.edge == 2 {
+				// First / Last hand out the value of the lowest / highest key: a read of another key
+				// only if nobody writes that one
+				o.key = inOrder[0]
+				if o.edge == 2 {
+					o.key = inOrder[len(inOrder)-1]
+				}
+				if _, w := written[o.key]; w {
+					continue
+				}
+			}
+			if o.rng {
+				p := pos[o.key]
+				e := p
+				for e < len(inOrder) && e-p < o.n {
+					if _, w := written[inOrder[e]]; w {
+						break
+					}
+					e++
+				}
+				o.want = inOrder[p:e]
+				o.lower, o.upper = tree.Included(inOrder[p]), tree.Included(inOrder[e-1])
+				if o.lb == 1 {
+					if p > 0 {
+						o.lower = tree.Excluded(inOrder[p-1])
+					} else {
+						o.lower = tree.Unbounded[int]()
+					}
+				}
+				if o.ub == 1 {
+					if e < len(inOrder) {
+						o.upper = tree.Excluded(inOrder[e])
+					} else {
+						o.upper = tree.Unbounded[int]()
+					}
 				}
 			}
 			keep = append(keep, o)
@@ -160,6 +225,7 @@ func oneRun(seed uint64, idx int, log bool) (sig string, msg string, nops int, s
 		ok       bool
 		cont     bool
 	}
+	rangeBad := make([]string, g)
 	results := make([][]res, g)
 	start := make(chan struct{})
 	var wg sync.WaitGroup
@@ -179,6 +245,46 @@ func oneRun(seed uint64, idx int, log bool) (sig string, msg string, nops int, s
 				switch {
 				case o.put:
 					mm.Put(o.key, o.val)
+				case o.edge == 3:
+					if l := mm.Len(); l != len(model) {
+						rangeBad[i] = fmt.Sprintf("a concurrent Len returned %d while only present keys were being overwritten; the map holds %d", l, len(model))
+					}
+				case o.edge != 0:
+					var k, v int
+					if o.edge == 1 {
+						k, v = mm.First()
+					} else {
+						k, v = mm.Last()
+					}
+					if k != o.key || v != model[o.key] {
+						rangeBad[i] = fmt.Sprintf("a concurrent First/Last (edge=%d) returned (%d, %d); the entry at that end, which nobody writes, is (%d, %d)", o.edge, k, v, o.key, model[o.key])
+					}
+				case o.rng:
+					it := mm.Range(o.lower, o.upper)
+					if o.rev {
+						it = mm.RangeReverse(o.lower, o.upper)
+					}
+					var got []int
+					for len(got) <= len(o.want)+2 {
+						kv, ok := it.Next()
+						if !ok {
+							break
+						}
+						got = append(got, kv.Key)
+						if kv.Value != model[kv.Key] {
+							rangeBad[i] = fmt.Sprintf("a concurrent bounded range starting at key %d (rev=%v) yielded (%d, %d); that key is not being written and holds %d", o.key, o.rev, kv.Key, kv.Value, model[kv.Key])
+						}
+					}
+					want := o.want
+					if o.rev {
+						want = nil
+						for a := len(o.want) - 1; a >= 0; a-- {
+							want = append(want, o.want[a])
+						}
+					}
+					if fmt.Sprint(got) != fmt.Sprint(want) && rangeBad[i] == "" {
+						rangeBad[i] = fmt.Sprintf("a concurrent bounded range (rev=%v) over unwritten keys yielded keys %v, expected %v", o.rev, got, want)
+					}
 				case o.cont:
 					results[i] = append(results[i], res{o.key, 0, mm.Contains(o.key), true})
 				default:
@@ -202,6 +308,11 @@ func oneRun(seed uint64, idx int, log bool) (sig string, msg string, nops int, s
 	for k, v := range model {
 		if got := m.Get(k); got != v || !m.Contains(k) {
 			return "race/put-lost", fmt.Sprintf("after the parallel phase Get(%d) = %d, expected %d (a Put did not take effect or disturbed another key)", k, got, v), ops, shape
+		}
+	}
+	for i := range rangeBad {
+		if rangeBad[i] != "" {
+			return "race/range-wrong", rangeBad[i], ops, shape
 		}
 	}
 	for i := range results {
